@@ -4,5 +4,11 @@ P="$(cd "$(dirname "$1")" && pwd)/$(basename "$1")"; ID="$2"; TIER="${3:-quick}"
 WT=/tmp/mutrun-$$
 git -C /repo worktree add -q --detach "$WT" HEAD || exit 2
 trap 'git -C /repo worktree remove --force "$WT" >/dev/null 2>&1' EXIT
-git -C "$WT" apply "$P" || exit 2
+if ! git -C "$WT" apply "$P" 2>/dev/null; then
+  # the change was written against an earlier HEAD of /repo (before a later fix: commit touched the same lines): test it on that base
+  git -C /repo worktree remove --force "$WT" >/dev/null 2>&1
+  git -C /repo worktree add -q --detach "$WT" "${MUTANT_BASE:-df3bced}" || exit 2
+  git -C "$WT" apply "$P" || { echo "patch applies neither to HEAD nor to ${MUTANT_BASE:-df3bced}"; exit 2; }
+  echo "(patch applied to ${MUTANT_BASE:-df3bced})"
+fi
 cd /verif && AHBICHT_REPO="$WT" VERIF_NO_EVIDENCE=1 ./check "$ID" --tier "$TIER"
